@@ -242,6 +242,22 @@ def _shard_c(args):
                 viol.add(f"C01/follower-changes-first/{_cls(pre)}/follower={fcls}",
                          f"{first.hex()} alone -> {base}; followed by {fol.hex()} -> {r}",
                          lambda: {"part": "C", "first": first.hex(), "follower": fol.hex(), "shard": sh()})
+        # followers that share the opcode (and prefix) but differ in the operand bytes: everything the three
+        # callbacks say about the first instruction (length, text, IL) must stay what it is alone
+        fullbase = drv.full_fp(first, ADDR)
+        k = 1 if pre is None else 2
+        if len(first) > k:
+            for flip in (0x01, 0x02, 0x04, 0x10, 0x21, 0x40, 0xFF):
+                for withpre in ((False, True) if pre is not None else (False,)):
+                    fol = (first[:1] if withpre else b"") + first[k - 1:k] + bytes([first[k] ^ flip]) + bytes(x ^ 0x5A for x in first[k + 1:]) + drv.TAILS["mix"]
+                    d = first + fol
+                    ev += 1
+                    r2 = drv.full_fp(d, ADDR)
+                    if r2 != fullbase:
+                        which = [n for n, a, b in zip(("info", "text", "il"), fullbase, r2) if a != b]
+                        viol.add(f"C01/same-opcode-follower-changes-first/{_cls(pre)}/{'+'.join(which)}",
+                                 f"{first.hex()} alone -> {str(fullbase)[:160]}; followed by {fol.hex()} -> {str(r2)[:160]}",
+                                 lambda: {"part": "C", "first": first.hex(), "follower": fol.hex(), "full": True, "shard": sh()})
     return {"ev": ev, "viol": viol}
 
 
@@ -511,6 +527,10 @@ def _replay1(w) -> Optional[str]:
     if part == "C":
         first = bytes.fromhex(w["first"])
         fol = bytes.fromhex(w["follower"])
+        if w.get("full"):
+            a = drv.full_fp(first, ADDR)
+            b = drv.full_fp(first + fol, ADDR)
+            return None if a == b else f"{first.hex()} -> {str(a)[:200]} but with follower {fol.hex()} -> {str(b)[:200]}"
         try:
             a = drv.info_fp(first, ADDR)
             b = drv.info_fp(first + fol, ADDR)
